@@ -54,11 +54,15 @@ Theorem C17_refused_first_message : forall a c m e k,
 Proof. exact refused_first_message_thm. Qed.
 Print Assumptions C17_refused_first_message.
 
-(* auto-trust on: the new key replaces the old one (bundle / first message), the first message is delivered,
-   and once the new key is the remembered one the queued message is re-sent under a session built for it *)
+(* auto-trust on: the new key replaces the old one (bundle / first message); for a bundle the session is built
+   for the new identity at once and the message goes out under it (repaired create_session,
+   fixes/C17-autotrust-rebuild-session.patch; create_session_unrepaired_refuted keeps the witness for the code
+   before the fix: "success" without any session, sendToContact then raises); the first message is delivered;
+   once the new key is the remembered one a queued message is re-sent under a session built for it *)
 Theorem C17_autotrust_bundle_replaces : forall a iq res c m k' sid,
   a_auto a = true -> lookup iq (a_iqs a) = Some (KSend c m) -> lookup c res = Some (k', sid) ->
-  lookup c (a_ids (fst (step a (IKeys iq res)))) = Some k'.
+  lookup c (a_ids (fst (step a (IKeys iq res)))) = Some k' /\
+  snd (step a (IKeys iq res)) = [OMsg c m EPk sid 0 k'].
 Proof. exact autotrust_bundle_replaces_thm. Qed.
 Print Assumptions C17_autotrust_bundle_replaces.
 
@@ -77,13 +81,13 @@ Theorem C17_autotrust_resumes : forall a iq res c m k' sid,
 Proof. exact autotrust_resumes_thm. Qed.
 Print Assumptions C17_autotrust_resumes.
 
-(* the whole replace-and-resume history as observed on the real code (two retries: the first key fetch only
-   replaces the key because create_session does not rebuild the session), and the same history refused *)
+(* the whole replace-and-resume history as observed on the (repaired) real code: contact 7 reinstalls (key 1 -> 2),
+   our message 3 goes out under the old session, 7 answers with a retry receipt, the key fetch replaces the key,
+   builds the session and re-sends message 3 as a prekey message under it *)
 Theorem C17_autotrust_replaces_and_resumes_history :
   snd (run (init true) history_autotrust) =
   [ [OGetKeys 0 7]; [OMsg 7 1 EPk 50 0 1]; [ODeliver 7 2 2; OReceipt 7 2];
-    [OMsg 7 3 EMsg 50 1 1]; [OGetKeys 1 7]; [OMsg 7 3 EMsg 50 2 1];
-    [OGetKeys 2 7]; [OMsg 7 3 EPk 52 0 2] ]
+    [OMsg 7 3 EMsg 50 1 1]; [OGetKeys 1 7]; [OMsg 7 3 EPk 51 0 2] ]
   /\ lookup 7 (a_ids (fst (run (init true) history_autotrust))) = Some 2.
 Proof. exact resume_history_autotrust. Qed.
 Print Assumptions C17_autotrust_replaces_and_resumes_history.
